@@ -137,6 +137,100 @@ def sp_quat(F, variant=None):
     return lib().utils.SparseQuaternionMatrix(*[sp_plane(F[..., c], variant) for c in range(4)], F.shape[:2])
 
 
+_FLAYOUT_COUNTER = [0]
+
+
+def f_layout(a):
+    """a float array (an image, a kernel, a real plane) with the same values in a MEMORY LAYOUT that cycles through C order,
+    Fortran order, a transposed-axes view, a read-only array and a negative-stride view - like q_from_float does for
+    quaternion matrices (VERIF_LAYOUTS=0 switches the cycling off)"""
+    a = np.array(a, dtype=np.float64, copy=True)
+    if a.ndim < 2 or os.environ.get("VERIF_LAYOUTS", "1") == "0":
+        return a
+    _FLAYOUT_COUNTER[0] += 1
+    k = _FLAYOUT_COUNTER[0] % 5
+    if k == 1:
+        return np.asfortranarray(a)
+    if k == 2:
+        axes = (1, 0) + tuple(range(2, a.ndim))
+        return np.ascontiguousarray(a.transpose(axes)).transpose(axes)          # (W, H, ...) data viewed as (H, W, ...)
+    if k == 3:
+        a.flags.writeable = False
+        return a
+    if k == 4:
+        return np.ascontiguousarray(a[::-1, ::-1])[::-1, ::-1]
+    return a
+
+
+# ------------------------------------------------------------ calling styles
+_SIGS = None
+
+
+def pinned_signature(fn):
+    """[(name, default, kind), ...] of a library function as it was on the pinned tree (harness/signatures.json), or None"""
+    global _SIGS
+    if _SIGS is None:
+        import json
+        with open(os.path.join(os.path.dirname(os.path.abspath(__file__)), "signatures.json")) as fh:
+            _SIGS = json.load(fh)
+    key = "%s.%s" % (getattr(fn, "__module__", "?"), getattr(fn, "__qualname__", "?"))
+    key = key[len("quatica."):] if key.startswith("quatica.") else key
+    return _SIGS.get(key)
+
+
+def as_pinned_positional(fn, a, kw):
+    """the same call written by a user of the PINNED API who passes every parameter positionally, in the pinned order
+    (explicit values where the call has them, pinned defaults elsewhere) -> (args, {}) or None.  A parameter inserted
+    in front of existing ones misbinds such a call."""
+    sig = pinned_signature(fn)
+    if not sig or any(k not in ("POSITIONAL_OR_KEYWORD", "POSITIONAL_ONLY") for _, _, k in sig):
+        return None
+    names = [n for n, _, _ in sig]
+    if any(k not in names for k in kw) or len(a) > len(names):
+        return None
+    out = []
+    for i, (n, d, _) in enumerate(sig):
+        if i < len(a):
+            out.append(a[i])
+        elif n in kw:
+            out.append(kw[n])
+        elif d in ("__required__", "__unrepresentable__"):
+            return None
+        else:
+            out.append(d)
+    return tuple(out), {}
+
+
+def as_all_keyword(fn, a, kw):
+    """the same call with every argument passed by its pinned name -> ((), kwargs) or None"""
+    sig = pinned_signature(fn)
+    if not sig or len(a) > len(sig) or any(k not in ("POSITIONAL_OR_KEYWORD",) for _, _, k in sig[:len(a)]):
+        return None
+    k2 = {sig[i][0]: v for i, v in enumerate(a)}
+    if set(k2) & set(kw):
+        return None
+    k2.update(kw)
+    return (), k2
+
+
+_CARRIER = [0]
+
+
+def numpy_carriers(a, kw):
+    """numeric OPTIONS held the numpy way: Python ints as numpy integers or 0-d arrays, floats as numpy floats or 0-d arrays,
+    bools as numpy bools (matrices and solver objects are left alone) -> (args, kwargs)"""
+    def conv(v):
+        _CARRIER[0] += 1
+        if isinstance(v, bool):
+            return np.bool_(v)
+        if isinstance(v, int):
+            return (np.int64(v), np.array(v), np.int32(v))[_CARRIER[0] % 3]
+        if isinstance(v, float) and math.isfinite(v):
+            return (np.float64(v), np.array(v))[_CARRIER[0] % 2]
+        return v
+    return tuple(conv(v) for v in a), {k: conv(v) for k, v in kw.items()}
+
+
 def to_int_lists(F):
     """float array (m,n,4) with integer values -> nested int lists; None if not integral."""
     R = np.rint(F)
